@@ -11,6 +11,11 @@ R2  spec->code: one record per graph (all graphs on <=4/5 nodes, directed/undire
 R3  code->spec: Modularize on random graphs up to ~60 nodes is recorded level by level (structure,
     reduced-graph weights) and validated by TLC against CommunityTrace.tla; the exact Q of every
     level is printed by TLC and compared with the Q gonum reports in a second pass.
+    The same for ModularizeMultiplex on 2- and 3-layer graphs (MultiplexTrace.tla, signed layer
+    weights), for community.Profile over ModularScore / ModularMultiplexScore (ProfileTrace.tla)
+    and for the query methods of every level / layer of the hierarchies (ReducedQueryTrace.tla).
+R2  ProfileStep.tla scripts step-function score functions for community.Profile and states the
+    intervals that must come back.
 """
 import os
 import shutil
@@ -83,38 +88,67 @@ def run(ctx):
                         subst=dict(N=n, DIRECTED=d, WEIGHTED=w, SALT=ctx.seed, SAMPLE=sample, EMIT="TRUE"))
         ctx.replay(hb, "community-qm", cases, name="R2 replay QMultiplex " + name)
 
-    ctx.parallel([(lambda a=a: net_stage(*a[:5])) for a in NET if a[5] or thorough] +
+    r2_stages = ([(lambda a=a: net_stage(*a[:5])) for a in NET if a[5] or thorough] +
                  [(lambda a=a: q_stage(*a[:5])) for a in QCFG if a[5] or thorough] +
-                 [(lambda a=a: qm_stage(*a[:5])) for a in QMCFG if a[5] or thorough], width=4)
+                 [(lambda a=a: qm_stage(*a[:5])) for a in QMCFG if a[5] or thorough])
 
-    # ---- Louvain: record real Modularize runs, validate every level with TLC, compare Q --------
-    runs = 200 if thorough else 16
+    # ---- community.Profile on scripted step functions (R1 windows disjoint + R2) ----------------
+    def pstep_stage():
+        cases = ctx.gen("network/ProfileStep.tla", "network/ProfileStep.cfg", name="R1+R2 gen Profile step functions",
+                        subst=dict(EMIT="TRUE"))
+        ctx.replay(hb, "profile-step", cases, name="R2 replay Profile on scripted step functions")
 
-    def louvain_stage(fam):
-        tr = os.path.join(ctx.work, "louvain-%s.ndjson" % fam)
-        summ = ctx.record(hb, "louvain", tr, ["family=" + fam, "runs=%d" % runs, "maxn=60"],
-                          name="R3 record Modularize " + fam)
-        ok, st = ctx.validate("network/CommunityTrace.tla", "network/CommunityTrace.cfg", tr,
-                              subst=dict(TRACE="trace.ndjson", EMIT="FALSE"), name="R3 validate Modularize " + fam)
+    # ---- recorded real runs: record, validate every event with TLC, second pass for the floats ----
+    def trace_stage(area, fam, args, spec, label, qarea, sig):
+        tr = os.path.join(ctx.work, "%s-%s.ndjson" % (area, fam))
+        summ = ctx.record(hb, area, tr, list(args), name="R3 record %s %s" % (label, fam))
+        if not summ.get("traces", 0):
+            return          # nothing was recorded (every run failed and was reported by ctx.record)
+        ok, st = ctx.validate("network/%s.tla" % spec, "network/%s.cfg" % spec, tr,
+                              subst=dict(TRACE="trace.ndjson", EMIT="FALSE"), name="R3 validate %s %s" % (label, fam))
         if not ok:
             keep = os.path.join(os.path.dirname(__file__), "..", "..", "replays", "C15")
             os.makedirs(keep, exist_ok=True)
-            dst = os.path.abspath(os.path.join(keep, "louvain-%s-seed%d.ndjson" % (fam, ctx.seed)))
+            dst = os.path.abspath(os.path.join(keep, "%s-%s-seed%d.ndjson" % (area, fam, ctx.seed)))
             shutil.copy(tr, dst)
-            ctx.violation("community:Modularize:trace-rejected:" + fam, st.get("detail", "")[:700],
-                          {"trace": dst, "family": fam})
+            ctx.violation("community:%s:trace-rejected:%s" % (sig, fam), st.get("detail", "")[:700],
+                          {"trace": dst, "family": fam, "spec": spec})
             return
         with ctx._lock:
             ctx.traces += summ.get("traces", 0)
-        # second pass: TLC prints the exact Q of every level next to gonum's floats
-        qs = ctx.gen("network/CommunityTrace.tla", "network/CommunityTrace.cfg", cache=False,
-                     subst=dict(TRACE=tr, EMIT="TRUE"), name="R3 exact Q of every level " + fam)
-        ctx.replay(hb, "louvain-q", qs, name="R3 compare Q " + fam)
+        if qarea is None:
+            return
+        # second pass: TLC prints the exact value of every float gonum reported
+        qs = ctx.gen("network/%s.tla" % spec, "network/%s.cfg" % spec, cache=False,
+                     subst=dict(TRACE=tr, EMIT="TRUE"), name="R3 exact values %s %s" % (label, fam))
+        ctx.replay(hb, qarea, qs, name="R3 compare %s %s" % (label, fam))
         for f in (qs, qs[:-7] + ".meta.json"):
             if os.path.exists(f):
                 os.remove(f)
 
-    ctx.parallel([lambda: louvain_stage("undir"), lambda: louvain_stage("dir")], width=2)
+    runs = 200 if thorough else 16
+    mruns = 150 if thorough else 16
+    pruns = 80 if thorough else 12
+    qruns = 100 if thorough else 14
+    stages = [pstep_stage]
+    for fam in ("undir", "dir"):
+        stages += [
+            lambda fam=fam: trace_stage("louvain", fam, ["family=" + fam, "runs=%d" % runs, "maxn=60"],
+                                        "CommunityTrace", "Modularize", "louvain-q", "Modularize"),
+            lambda fam=fam: trace_stage("mlouvain", fam, ["family=" + fam, "runs=%d" % mruns, "maxn=40"],
+                                        "MultiplexTrace", "ModularizeMultiplex", "mlouvain-q", "ModularizeMultiplex"),
+            lambda fam=fam: trace_stage("profile", fam, ["family=" + fam, "runs=%d" % pruns],
+                                        "ProfileTrace", "Profile", "profile-q", "Profile"),
+            lambda fam=fam: trace_stage("reduced-queries", fam, ["family=" + fam, "runs=%d" % qruns],
+                                        "ReducedQueryTrace", "reduced graph queries", None, "queries"),
+        ]
+    # weights = nil ("layers are equally weighted"): its own stage and failure signature
+    stages.append(lambda: trace_stage("mlouvain", "undir-nilweights",
+                                      ["family=undir", "runs=%d" % (20 if thorough else 4), "maxn=14", "weights=nil"],
+                                      "MultiplexTrace", "ModularizeMultiplex(weights=nil)", "mlouvain-q",
+                                      "ModularizeMultiplex:nil-weights"))
+    # one pool: the two longest generator stages first, the short trace stages fill the gaps
+    ctx.parallel(r2_stages[:2] + stages + r2_stages[2:], width=4)
 
     ctx.assumptions += [
         "TLC/SANY and the CommunityModules (Json, Functions, FiniteSetsExt) are trusted",
@@ -122,6 +156,13 @@ def run(ctx):
         "formula-valued measures are compared with the exact rational within 1e-12 relative (c*n*eps)",
         "Louvain traces: the recorder's projection of each level (Communities, Structure, Weight matrix) is trusted; "
         "Q of a level is compared with TLC's exact rational within 1e-10 (sum of up to n^2 float terms, n <= 60)",
+        "multiplex modularity with a negative layer weight: A* of the documented formula is read as the magnitude of the "
+        "layer's (non-positive) edge weights, Q_layer = w * SUM[|A| - gamma k k / m] (Traag's signed modularity, which the "
+        "code cites); an unweighted layer under a negative layer weight counts every edge as -1",
+        "Profile traces: resolutions enter TLC as order ranks computed by the recorder (sort of the float boundaries) and, "
+        "for linear bisection, as exact dyadic rationals; Interval.Score is compared with the exact score within 1e-12",
+        "Profile on scripted step functions: in log mode the granularity bound e^grain is replaced by the rational "
+        "1 + grain + grain^2 >= e^grain",
         "HITS: where the spec states the limit direction d exactly, scores must be parallel to d within "
         "2*tol*lam2/(lam-lam2) (emitted by the spec from the termination test) + 1e-12; unit norm within 1e-12",
         "DiffuseToEquilibrium: allowed deviation tol*(dmax/dmin)*(diam*vol)/(1-damp) emitted by the spec (Chung's gap "
@@ -134,7 +175,9 @@ def run(ctx):
              "container type and shortest-path source); for community.Q / QMultiplex one case = one evaluation "
              "(graph or layer pair, container type, partition, resolution); "
              "non-trivial = the graph has at least one edge (Q: partition neither trivial nor singletons). "
-             "R3: one trace = one Modularize run (all levels); one Q case = one level of one run.",
+             "R3: one trace = one Modularize / ModularizeMultiplex / Profile run (all levels / intervals) or one "
+             "(level, layer) of a hierarchy with the answers of every query method; one Q case = one level of one run "
+             "or one interval of one profile. Profile step functions: one case = one Profile call.",
         exhaustive=True)
 
 
@@ -142,12 +185,26 @@ def replay(ctx, path):
     import json
     d = json.load(open(path))["data"]
     if "trace" in d:
-        ok, st = ctx.validate("network/CommunityTrace.tla", "network/CommunityTrace.cfg", d["trace"],
+        spec = d.get("spec", "CommunityTrace")
+        ok, st = ctx.validate("network/%s.tla" % spec, "network/%s.cfg" % spec, d["trace"],
                               subst=dict(TRACE="trace.ndjson", EMIT="FALSE"))
         print("trace accepted" if ok else "trace rejected: " + st.get("detail", "")[:800])
         if not ok:
             print("VIOLATION property=C15 replay=%s" % path)
         return 0 if ok else 1
+    if d.get("failure", {}).get("case") is None and "failure" in d:
+        # a failure reported by a seeded recorder (panic / hang of the call itself): run the same
+        # recorder again with the recorded seed and arguments and look for the same signature
+        ctx.seed = json.load(open(path)).get("seed", ctx.seed)
+        sig = d["failure"].get("sig", "")
+        summ = ctx.record(ctx.build(""), d["area"], os.path.join(ctx.work, "rerun.ndjson"), d["args"])
+        again = [f for f in summ.get("failures", []) if f.get("sig") == sig]
+        for f in again[:1]:
+            print("reproduced: %s :: %s" % (sig, f.get("msg", "")[:600]))
+            print("VIOLATION property=C15 replay=%s" % path)
+        if not again:
+            print("not reproduced: " + sig)
+        return 1 if again else 0
     one = os.path.join(ctx.work, "one.ndjson")
     with open(one, "w") as fh:
         fh.write(json.dumps(d["failure"]["case"]) + "\n")
